@@ -3,9 +3,8 @@ PROPS["C20"] = dict(
     props_file="Properties/C20.v",
     harnesses=[dict(cmd="labels", mod="root", model="Model.Labels", quick=240, thorough=6000, shard=30,
                     preamble="Open Scope string_scope.",
-                    require=["flavour.default", "flavour.extra", "probe.plain", "probe.mutated", "probe.mutated.rejected",
-                             "probe.mutated.accepted", "result.layers-truncated", "result.urls-truncated",
-                             "result.neighbour-with-urls", "result.handler-error", "input.bad-digest",
+                    require=["flavour.default", "flavour.extra", "probe.plain", "probe.mutated", "input.layers-over-limit",
+                             "input.urls-over-limit", "input.several-layers-with-urls", "input.bad-digest", "input.bad-ref",
                              "input.not-manifest", "input.nonlayer-in-layers"])],
     rule="manifests as containerd enumerates children (config, then 0..60 layers of mixed layer media types, repeated digests, "
          "sha256/384/512 digests, URL lists nil/empty/[\"\"]/foreign/with commas/long enough to hit the 4096-byte label limit, "
